@@ -346,6 +346,13 @@ func replaySegments(b vlib.Behaviour, cfg segCfg, origin time.Time, rnd *rand.Ra
 			case "retention":
 				res.Steps++
 				storage.VerifRetention(w.db, w.at(now))
+			case "tick":
+				res.Steps++
+				t := w.at(vlib.Int(ev, "t"))
+				if rnd.Intn(2) == 0 {
+					t = t.Add(time.Duration(rnd.Intn(3599)) * time.Second)
+				}
+				storage.VerifTickSync(w.db, t.UnixNano())
 			case "forced":
 				res.Steps++
 				if _, err := w.db.DeleteOldestSegment(); err != nil {
@@ -364,8 +371,11 @@ func replaySegments(b vlib.Behaviour, cfg segCfg, origin time.Time, rnd *rand.Ra
 		}
 		if fmt.Sprint(got) != fmt.Sprint(want) {
 			kind := "segments-differ-after-" + op + ":" + w.zoneClass(firstDiff(got, want))
-			if op == "retention" || op == "forced" {
+			if op == "retention" || op == "forced" || op == "tick" {
 				deadline := now - cfg.TTL
+				if op == "tick" {
+					deadline = vlib.Int(ev, "t") - cfg.TTL
+				}
 				for _, g := range want {
 					found := false
 					for _, x := range got {
